@@ -6,7 +6,7 @@
    GENERATED FILES is decided on the implementation by the metamorphic correspondence of this property (permutations,
    partitions into import trees, all targets, banner line excluded). *)
 From Coq Require Import List String Bool Arith Permutation.
-From Coq Require Import Ascii.
+From Coq Require Import Ascii Relations.
 From PDV Require Import Lang.Comment Idl.GrammarDefs Idl.Lexer Idl.ParserG Idl.LayoutFree Idl.LexParseProofs Idl.LexLemmas Idl.LexStable Idl.LexWhite Idl.LexWhiteParse Gen.Grammar.
 From PDV Require Import Lib.StrUtil Idl.Cst Idl.Ast Idl.Resolver Idl.ResolverProofs Idl.Visitor Idl.Front Idl.ChecksProofs Idl.LayoutProofs.
 Import ListNotations.
@@ -173,3 +173,32 @@ Proof.
   vm_compute in E. injection E as <-. eexists (firstn 3 _), (skipn 3 _). rewrite firstn_skipn. cbn [firstn skipn].
   split; [reflexivity|]. split; [vm_compute; reflexivity|]. split; [repeat constructor | vm_compute; reflexivity].
 Qed.
+
+(* any number of white-space changes, in either direction: the reflexive-symmetric-transitive closure of "one white-space run between two
+   lexemes of an error-free text is replaced by another one that starts with the same character" relates only texts with the same parse tree
+   up to positions.  (Symmetry is sound because the replaced text is again error-free with a boundary in front of the run:
+   skipped_run_same_tokens.) *)
+Inductive ws_reformat : string -> string -> Prop :=
+| ws_reformat_intro : forall c w1 w2 y la x rest1, In c [nl; " "%char; "009"%char; "013"%char] ->
+    run_len ws_pred w1 = String.length w1 -> run_len ws_pred w2 = String.length w2 -> (match y with EmptyString => true | String a _ => negb (ws_pred a) end) = true ->
+    lex_all lexer_rules (x ++ String c (w1 ++ y)) = Some (la ++ rest1) -> concat_lexemes la = x -> no_err la -> has_lex_error (la ++ rest1) = false ->
+    ws_reformat (x ++ String c (w1 ++ y)) (x ++ String c (w2 ++ y)).
+
+Theorem C11_any_number_of_white_space_changes : forall s1 s2, clos_refl_sym_trans _ ws_reformat s1 s2 ->
+  erase_o (parse_text lexer_rules parser_rules start_rule s1) = erase_o (parse_text lexer_rules parser_rules start_rule s2).
+Proof.
+  intros s1 s2 H. induction H as [a b Hab|a|a b _ IH|a b d _ IH1 _ IH2].
+  - destruct Hab as [c w1 w2 y la x rest1 Hc Hw1 Hw2 Hy HL Hla Hne Herr].
+    exact (C11_white_space_does_not_change_the_tree c Hc w1 w2 y la x rest1 Hw1 Hw2 Hy HL Hla Hne Herr).
+  - reflexivity.
+  - symmetry; exact IH.
+  - now rewrite IH1.
+Qed.
+Print Assumptions C11_any_number_of_white_space_changes.
+
+Theorem C11_reformatted_same_tree : forall rules prules start nm0 q pr s1 s2,
+  In (nm0, (true, false, LPlus q)) rules -> single_char q = Some pr ->
+  clos_refl_sym_trans _ (run_step rules nm0 q pr) s1 s2 ->
+  erase_o (parse_text rules prules start s1) = erase_o (parse_text rules prules start s2).
+Proof. exact reformatted_same_tree. Qed.
+Print Assumptions C11_reformatted_same_tree.
